@@ -269,7 +269,7 @@ pub fn strategy() -> impl Strategy<Value = Case> {
                 }
             })
         });
-    let base = prop_oneof![8 => fixed, 2 => other, 1 => odd, 2 => window_edges(), 1 => just_below_integer(), 2 => independent];
+    let base = prop_oneof![8 => fixed, 2 => other, 1 => odd, 2 => window_edges(), 1 => just_below_integer(), 1 => cancelling(), 2 => independent];
     // name / unit / flags / coding have nothing to do with the conversion: any combination, consistent or not
     (
         base,
@@ -341,6 +341,24 @@ fn window_edges() -> impl Strategy<Value = Case> {
         })
 }
 
+/// value x quantization and the offset cancel (or nearly): offset = -(trunc(value x quantization)) + d, d in -3..=3, for
+/// values of every magnitude (powers of two and their neighbours, arbitrary 64-bit values) and exact quantizations
+fn cancelling() -> impl Strategy<Value = Case> {
+    let magnitude = prop_oneof![
+        2 => (0u32..64, -2i64..=2).prop_map(|(k, d)| ((1u128 << k) as i128 + d as i128).max(0) as u64),
+        1 => any::<u64>(),
+        1 => (any::<u64>(), 0u32..64).prop_map(|(v, s)| v >> s),
+    ];
+    (magnitude, prop::sample::select(vec![1.0f32, 0.25, 0.5, 2.0, 4.0, 1.5]), -3i64..=3, prop::bool::weighted(0.8), any::<bool>()).prop_map(|(v, q, d, is64, signed)| {
+        let v = if signed { v >> 1 } else { v };
+        let product = ((v as f64) * (q as f64)).trunc();
+        let off = if product < 9.2e18 { -(product as i128) + d as i128 } else { -(i64::MAX as i128) + d as i128 };
+        let off = off.clamp(i64::MIN as i128, i64::MAX as i128) as i64;
+        let (kind, val) = if signed { (RKind::SintFx(64), RVal::I(v as i128)) } else { (RKind::UintFx(64), RVal::U(v as u128)) };
+        Case { kind, fixp: Some((q.to_bits(), off, is64)), vbits: 64, val, extras: None }
+    })
+}
+
 /// value x quantization = n - 2^-k for k >= 30: mathematically just below an integer, so the truncated product is n - 1
 /// (value * m = n * 2^k - 1 with m < 2^24, i.e. the quantization m * 2^-k is exactly representable in f32)
 fn just_below_integer() -> impl Strategy<Value = Case> {
@@ -367,7 +385,7 @@ fn just_below_integer() -> impl Strategy<Value = Case> {
     });
     (
         prop::sample::select(table.clone()),
-        -1000i64..1000,
+        prop_oneof![2 => (-1000i64..1000).boxed(), 2 => offsets().boxed()],
         any::<bool>(),
         any::<bool>(),
     )
